@@ -432,7 +432,9 @@ func Reconstruct(s *Stream) (*fl.J, []Fail) {
 	return data, fails
 }
 
-// FailedAnchors: descriptor paths of the defers that were completed with errors (no data).
+// FailedAnchors: descriptor paths of the defers that reported errors: completed with errors (no
+// data) or delivered with errors on an incremental item (a null may have bubbled inside the
+// fragment, beyond what the item shows).
 func FailedAnchors(s *Stream) [][]string {
 	paths := map[string][]string{}
 	var out [][]string
@@ -440,6 +442,11 @@ func FailedAnchors(s *Stream) [][]string {
 		for _, c := range f.Completed {
 			if c.Errors {
 				out = append(out, paths[c.ID])
+			}
+		}
+		for _, in := range f.Incr {
+			if in.Errors {
+				out = append(out, paths[in.ID])
 			}
 		}
 		for _, p := range f.Pending {
